@@ -437,6 +437,8 @@ def Ctx.setSubOffline (c : Ctx) (a : Actor) (tn : TName) (target : Uid) (mode : 
       | none => c.emit a.sid (ctrl 200 tn)
 
 def Ctx.opGet (c : Ctx) (a : Actor) (tn : TName) (what : String) (since before limit : Int) : Ctx :=
+  -- parseMsgClientMeta: an unknown `what` is malformed, attached or not (session.go:1104-1110)
+  if what ≠ "desc" ∧ what ≠ "sub" ∧ what ≠ "data" ∧ what ≠ "del" then c.emit a.sid (ctrl 400 tn) else
   if !c.w.attached a.sid tn then
     (match what with
       | "desc" => c.getDescOffline a tn
